@@ -49,6 +49,8 @@ def slot_opened_last(prog, r):
     if not gates:
         raise AnalysisBroken('bus_dispatch_matches no longer calls the policy gate')
     OOM = 'org.freedesktop.DBus.Error.NoMemory'
+    # only what is reported through the function's own DBusError parameter is a refusal of the addressed message
+    err_params = {p['id'] for p in dm.params if 'DBusError' in (p.get('t') or '')}
 
     def on_event_d(user, ev, ctx):
         if ev['ev'] == 'call':
@@ -56,6 +58,7 @@ def slot_opened_last(prog, r):
             if c.get('callee') in ('bus_transaction_send', 'bus_transaction_send_from_driver'):
                 return 'staged'
             if user != 'staged' and c.get('callee') in ('dbus_set_error', 'dbus_set_error_const') \
+                    and c['args'] and is_ref(c['args'][0]) and c['args'][0].get('id') in err_params \
                     and any(ctx.result_known(g) is True for g in gates):
                 nm = c['args'][1] if len(c['args']) > 1 else None
                 if not (nm is not None and nm.get('k') == 'str' and nm.get('v') == OOM):
